@@ -115,12 +115,6 @@ def isOrdering : CmpOp → Bool
   | .lt | .le | .gt | .ge => true
   | _ => false
 
-/-- the single over-acceptance of the constant path: an ORDERING comparison of two `null` literals -/
-def nullOrdering (op : BinaryOp) (l r : ConstantValue) : Bool :=
-  match op, l, r with
-  | .cmp c, .nullPointer, .nullPointer => isOrdering c
-  | _, _, _ => false
-
 theorem typeOkB_evalShift (o : ShiftOp) (a b : Int) : typeOkB (evalShift o (.integer a) (.integer b)) = true := by
   unfold evalShift
   simp only
@@ -140,10 +134,11 @@ theorem typeOkB_arith_int (F : FloatOps) (o : ArithOp) (a b : Int) :
     · simp [typeOkB, isValueError]
     · split <;> simp [typeOkB, isValueError]
 
-/-- without `QString`-typed constants (which only `"lit" as QString` produces) and apart from `null < null`, the
-    constant path admits exactly the operator/type combinations of the specification's table -/
+/-- without `QString`-typed constants (which only `"lit" as QString` produces) the constant path admits exactly the
+    operator/type combinations of the specification's table (after the repair 9ae7b5c of finding F30 this includes
+    the comparisons of two `null` literals: `==`/`!=` only) -/
 theorem cevalBinary_okB (F : FloatOps) (env : Env) (op : BinaryOp) (l r : ConstantValue) (hlog : ∀ o, op ≠ .logical o)
-    (hq : isQString l = false ∧ isQString r = false) (hn : nullOrdering op l r = false) :
+    (hq : isQString l = false ∧ isQString r = false) :
     typeOkB (cevalBinary F op l r) = (binaryType env op l.typeDesc r.typeDesc).isSome := by
   cases op with
   | logical o => exact absurd rfl (hlog o)
@@ -171,8 +166,8 @@ theorem cevalBinary_okB (F : FloatOps) (env : Env) (op : BinaryOp) (l r : Consta
   | cmp o =>
     cases l <;> cases r <;> simp [isQString] at hq
     case nullPointer.nullPointer =>
-      cases o <;> simp [nullOrdering, isOrdering] at hn <;>
-        simp [cevalBinary, evalComparison, typeOkB, binaryType, common, ConstantValue.typeDesc, orderedTy, eqOnlyTy]
+      cases o <;>
+        simp [cevalBinary, evalComparison, typeOkB, isValueError, binaryType, common, ConstantValue.typeDesc, orderedTy, eqOnlyTy]
     all_goals
       simp [cevalBinary, evalComparison, typeOkB, isValueError, binaryType, common, ConstantValue.typeDesc, TypeDesc.bool,
         TypeDesc.double, TypeDesc.string, litFits, intK, ptrK, listK, numK, enumK, orderedTy, eqOnlyTy, TypeKind.bool,
@@ -194,9 +189,9 @@ theorem evalShift_type (o : ShiftOp) (l r c : ConstantValue) (h : evalShift o l 
         · simp at h; subst h; rfl
         · simp at h
 
-/-- whatever the constant path accepts has the type the specification's table gives — except `null < null` -/
+/-- whatever the constant path accepts has the type the specification's table gives -/
 theorem cevalBinary_type (F : FloatOps) (env : Env) (op : BinaryOp) (l r c : ConstantValue) (hlog : ∀ o, op ≠ .logical o)
-    (hn : nullOrdering op l r = false) (h : cevalBinary F op l r = .ok c) :
+    (h : cevalBinary F op l r = .ok c) :
     binaryType env op l.typeDesc r.typeDesc = some c.typeDesc := by
   cases op with
   | logical o => exact absurd rfl (hlog o)
@@ -232,11 +227,17 @@ theorem cevalBinary_type (F : FloatOps) (env : Env) (op : BinaryOp) (l r c : Con
     cases l <;> cases r <;> simp [cevalBinary, evalBinaryBitwise] at h <;> subst h <;>
       simp [binaryType, common, ConstantValue.typeDesc, TypeDesc.bool, TypeKind.bool]
   | cmp o =>
-    cases l <;> cases r <;> simp [cevalBinary, evalComparison] at h <;> subst h
+    cases l <;> cases r <;> simp [cevalBinary, evalComparison] at h
     case nullPointer.nullPointer =>
-      cases o <;> simp [nullOrdering, isOrdering] at hn <;>
-        simp [binaryType, common, ConstantValue.typeDesc, orderedTy, eqOnlyTy, TypeDesc.bool]
+      split at h
+      · rename_i ho
+        simp at h
+        subst h
+        rcases ho with rfl | rfl <;>
+          simp [binaryType, common, ConstantValue.typeDesc, orderedTy, eqOnlyTy, TypeDesc.bool]
+      · simp at h
     all_goals
+      subst h
       simp [binaryType, common, ConstantValue.typeDesc, TypeDesc.bool, TypeDesc.double, TypeDesc.string, orderedTy, numK,
         TypeKind.bool, TypeKind.double, TypeKind.string, TypeKind.int, TypeKind.uint]
 
@@ -248,18 +249,13 @@ theorem const_dyn_consistent (F : FloatOps) (env : Env) (b : Builder) (op : Bina
     (hlog : ∀ o, op ≠ .logical o) (hq : isQString l = false ∧ isQString r = false)
     (hnn : ¬ (l = .nullPointer ∧ r = .nullPointer)) :
     typeOkB (cevalBinary F op l r) = okB (emitBinaryExpression env b op (.const l) (.const r)) := by
-  have hn : nullOrdering op l r = false := by
-    unfold nullOrdering
-    split
-    · exact absurd ⟨rfl, rfl⟩ hnn
-    · rfl
   have hnn' : ¬ ((Operand.const l).typeDesc = .nullPointer ∧ (Operand.const r).typeDesc = .nullPointer) := by
     intro ⟨h1, h2⟩
     apply hnn
     constructor
     · cases l <;> simp [Operand.typeDesc, ConstantValue.typeDesc, TypeDesc.bool, TypeDesc.double, TypeDesc.string] at h1; rfl
     · cases r <;> simp [Operand.typeDesc, ConstantValue.typeDesc, TypeDesc.bool, TypeDesc.double, TypeDesc.string] at h2; rfl
-  rw [cevalBinary_okB F env op l r hlog hq hn, emitBinary_okB env b op _ _ hlog hnn']
+  rw [cevalBinary_okB F env op l r hlog hq, emitBinary_okB env b op _ _ hlog hnn']
   rfl
 
 theorem const_dyn_consistent_unary (F : FloatOps) (b : Builder) (op : UnaryOp) (a : ConstantValue) :
@@ -296,14 +292,14 @@ theorem i64min_rem_overrejected (F : FloatOps) :
     cevalBinary F (.arith .rem) (.integer i64Min) (.integer (-1)) = .error .integerOverflow := by
   simp [cevalBinary, evalBinaryArith, i64Min]
 
-/-- OVER-ACCEPTANCE (finding F30): an ordering comparison of two `null` literals is folded to a constant although
-    pointers are not ordered: the table refuses it, and the dynamic path refuses it for every pair of pointer operands -/
-theorem null_ordering_accepted_by_const_path (F : FloatOps) (env : Env) :
-    cevalBinary F (.cmp .lt) .nullPointer .nullPointer = .ok (.bool false) ∧
-    cevalBinary F (.cmp .le) .nullPointer .nullPointer = .ok (.bool true) ∧
-    binaryType env (.cmp .lt) .nullPointer .nullPointer = none ∧
-    binaryType env (.cmp .le) .nullPointer .nullPointer = none := by
-  refine ⟨?_, ?_, ?_, ?_⟩ <;> simp [cevalBinary, evalComparison, cmpBy, binaryType, common, orderedTy, eqOnlyTy]
+/-- finding F30, repaired by 9ae7b5c: an ordering comparison of two `null` literals is a type error on the constant
+    path too (it used to be folded to `false`/`true`), as the table says and as the dynamic path says for every pair
+    of pointer operands -/
+theorem null_ordering_rejected_by_const_path (F : FloatOps) (env : Env) (c : CmpOp) (hc : isOrdering c = true) :
+    typeOkB (cevalBinary F (.cmp c) .nullPointer .nullPointer) = false ∧
+    binaryType env (.cmp c) .nullPointer .nullPointer = none := by
+  cases c <;> simp [isOrdering] at hc <;>
+    simp [cevalBinary, evalComparison, typeOkB, isValueError, binaryType, common, orderedTy, eqOnlyTy]
 
 theorem pointer_ordering_rejected_by_dynamic_path (env : Env) (b : Builder) (c : CmpOp) (hc : isOrdering c = true)
     (l r : Operand) (k : TypeKind) (hk : ptrK k = true) (hl : l.typeDesc = .concrete k ∨ l.typeDesc = .nullPointer)
